@@ -1,4 +1,188 @@
 import Ptn.C08.Model
-/-! Property theorems for C08. Only property theorems and non-vacuity examples live here. -/
+import Ptn.C08.Lemmas
+import Ptn.C08.Stages
+/-! Property theorems for C08 (a TEBD step is the ordered product of its Trotter gates and SWAPs).
+Only property theorems and non-vacuity examples live here; helper lemmas are in `Lemmas.lean`
+(splitting, SWAP), `LegLemmas.lean` and `Stages.lean` (leg bookkeeping).
+
+What is proved: (i) the list order of `exponentiate_splitting`, (ii) the index rule of `swap_gate` for
+every dimension, (iii) the leg bookkeeping of the two-site (and single-site) gate application for
+either orientation of the pair, any number of further neighbours and of physical legs.
+Not proved here (decided per input by the dense oracle of the harness): that the numbers agree
+(`expm`, SVD, dimensions) and the bond bound under truncation. -/
 namespace Ptn.C08
+
+/-! ### (i) order of the operators of one time step -/
+
+/-- `exponentiate_splitting` returns, for the Trotter steps in their order, the swaps before, the
+    exponentiated operator, the swaps after - concatenated. -/
+theorem splitting_order {α : Type} (steps : List (TStep α)) :
+    exponentiateSplitting steps =
+      (steps.map fun s => s.before ++ [s.gate] ++ s.after).flatten := by
+  unfold exponentiateSplitting
+  rw [foldl_stepBody]
+  rfl
+
+/-- Consequently nothing is lost or duplicated: the number of operators is the sum over the steps. -/
+theorem splitting_length {α : Type} (steps : List (TStep α)) :
+    (exponentiateSplitting steps).length =
+      (steps.map fun s => s.before.length + 1 + s.after.length).sum := by
+  rw [splitting_order]
+  induction steps with
+  | nil => rfl
+  | cons s ss ih =>
+    simp only [List.map_cons, List.flatten_cons, List.length_append, List.sum_cons, ih,
+      List.length_cons, List.length_nil]
+
+example : exponentiateSplitting [⟨[3, 4], 0, [5]⟩, ⟨[], 1, []⟩, ⟨[6], 2, [7, 8]⟩] =
+    [3, 4, 0, 5, 1, 6, 2, 7, 8] := by decide
+
+/-! ### (ii) the SWAP matrix -/
+
+/-- For every dimension `d` and all digits `a, b, a', b' < d`: the entry of `swap_gate(d)` in row
+    `a*d + b` (outputs `(a, b)`) and column `a'*d + b'` (inputs `(a', b')`) is one exactly when the two
+    digits are exchanged, `(a, b) = (b', a')`, and zero otherwise. -/
+theorem swap_gate_spec (d a b a' b' : Nat) (ha : a < d) (hb : b < d) (ha' : a' < d) (hb' : b' < d) :
+    entry (swapGate d) (a * d + b) (a' * d + b') = some (if a = b' ∧ b = a' then 1 else 0) := by
+  rw [entry_swapGate]
+  have h1 := index_lt ha hb
+  have h2 := index_lt ha' hb'
+  simp only [h1, h2, and_self, if_true]
+  have d1 := digits_of_index (a := a) hb
+  have d2 := digits_of_index (a := a') hb'
+  have hc : swapCond d (a * d + b) (a' * d + b') = true ↔ (a = b' ∧ b = a') := by
+    rw [swapCond_iff, d1.1, d1.2, d2.1, d2.2]
+    constructor
+    · intro h; exact ⟨h.1, h.2.symm⟩
+    · intro h; exact ⟨h.1, h.2.symm⟩
+  by_cases h : a = b' ∧ b = a'
+  · rw [if_pos h, if_pos (hc.mpr h)]
+  · have : ¬ swapCond d (a * d + b) (a' * d + b') = true := fun x => h (hc.mp x)
+    rw [if_neg h, if_neg this]
+
+/-- The matrix is `d² × d²`: exactly the index pairs below `d²` carry an entry. -/
+theorem swap_gate_shape (d i j : Nat) :
+    (entry (swapGate d) i j).isSome ↔ (i < d * d ∧ j < d * d) := by
+  rw [entry_swapGate]
+  by_cases h : i < d * d ∧ j < d * d
+  · simp [h]
+  · simp [h]
+
+/-- Exchanging the digits twice is the identity; the exchanged index is again an index; row `i` of the
+    SWAP matrix has its single one in column `digitSwap d i`. -/
+theorem swap_gate_involutive (d i : Nat) (hi : i < d * d) :
+    digitSwap d (digitSwap d i) = i ∧ digitSwap d i < d * d ∧
+      ∀ j, j < d * d → (entry (swapGate d) i j = some 1 ↔ j = digitSwap d i) := by
+  have hd : 0 < d := by
+    cases d with
+    | zero => simp at hi
+    | succ n => omega
+  have hq : i / d < d := div_lt_of_lt_sq hi
+  have hr : i % d < d := Nat.mod_lt _ hd
+  have dg := digits_of_index (a := i % d) hq
+  refine ⟨?_, ?_, ?_⟩
+  · unfold digitSwap
+    rw [dg.1, dg.2, Nat.mul_comm]
+    exact Nat.div_add_mod i d
+  · exact index_lt hr hq
+  · intro j hj
+    rw [entry_swapGate]
+    simp only [hi, hj, and_self, if_true, Option.some.injEq]
+    have hjq : j / d < d := div_lt_of_lt_sq hj
+    constructor
+    · intro h
+      have hc : swapCond d i j = true := by
+        by_cases hc : swapCond d i j = true
+        · exact hc
+        · simp [hc] at h
+      rw [swapCond_iff] at hc
+      unfold digitSwap
+      rw [← hc.2, hc.1, Nat.mul_comm]
+      exact (Nat.div_add_mod j d).symm
+    · intro h
+      have hc : swapCond d i j = true := by
+        rw [swapCond_iff, h]
+        unfold digitSwap
+        rw [dg.1, dg.2]
+        exact ⟨rfl, rfl⟩
+      simp [hc]
+
+example : (swapGate 2) = [[1, 0, 0, 0], [0, 0, 1, 0], [0, 1, 0, 0], [0, 0, 0, 1]] := by decide
+example : onesOf (swapGate 3) =
+    [(0, 0), (1, 3), (2, 6), (3, 1), (4, 4), (5, 7), (6, 2), (7, 5), (8, 8)] := by decide
+example : entry (swapGate 3) (1 * 3 + 2) (2 * 3 + 1) = some 1 := by decide   -- |1,2⟩⟨2,1|
+
+/-! ### (iii) leg bookkeeping of a gate application -/
+
+/-- **Two-site gate.**  `P` (identifier `p`, parent `pp` or root, children `A ++ c :: B`, `oP` physical
+    legs) is the parent of `C` (identifier `c`, children `K`, `oC` physical legs); all identifiers are
+    distinct.  For either order in which the operator names the two nodes, the sequence
+    `legs_before_combination; contract_nodes; absorb_into_open_legs; split_node_svd` completes and
+
+    * the gate's `k`-th input leg is contracted with the `k`-th physical leg in the order (legs of the
+      first-named node, legs of the second-named node);
+    * each node comes back with its parent, with its children (the pair's child now first among the
+      parent's children), and with the gate's output legs where its physical legs were: outputs
+      `0 … o₁-1` on the first-named node, `o₁ … o₁+o₂-1` on the second-named one. -/
+theorem two_site_gate_legs (p c : Nat) (pp : Option Nat) (A B K : List Nat) (oP oC : Nat)
+    (h : PairOK p c pp A B K) :
+    (∃ r, twoSite p (mkNode p pp (A ++ c :: B) oP) c (mkNode c (some p) K oC) = some r ∧
+      r.binds = (physL p oP ++ physL c oC).zip ((List.range (oP + oC)).map Leg.gin) ∧
+      r.node1 = ⟨pp, c :: (A ++ B), parentLegs pp ++ (Leg.bond :: ((A ++ B).map Leg.nb ++ goutL 0 oP))⟩ ∧
+      r.node2 = ⟨some p, K, Leg.bond :: (K.map Leg.nb ++ goutL oP oC)⟩) ∧
+    (∃ r, twoSite c (mkNode c (some p) K oC) p (mkNode p pp (A ++ c :: B) oP) = some r ∧
+      r.binds = (physL c oC ++ physL p oP).zip ((List.range (oC + oP)).map Leg.gin) ∧
+      r.node1 = ⟨some p, K, Leg.bond :: (K.map Leg.nb ++ goutL 0 oC)⟩ ∧
+      r.node2 = ⟨pp, c :: (A ++ B), parentLegs pp ++ (Leg.bond :: ((A ++ B).map Leg.nb ++ goutL oC oP))⟩) := by
+  exact ⟨⟨_, twoSite_parentFirst oP oC h, rfl, rfl, rfl⟩, ⟨_, twoSite_childFirst oP oC h, rfl, rfl, rfl⟩⟩
+
+/-- The case TEBD uses (one physical leg per node), spelled out: input leg 0 meets the physical leg of
+    the first-named node, input leg 1 that of the second-named node, whichever of them is the parent. -/
+theorem two_site_gate_binding (p c : Nat) (pp : Option Nat) (A B K : List Nat)
+    (h : PairOK p c pp A B K) :
+    (twoSite p (mkNode p pp (A ++ c :: B) 1) c (mkNode c (some p) K 1)).map (·.binds) =
+      some [(Leg.phys p 0, Leg.gin 0), (Leg.phys c 0, Leg.gin 1)] ∧
+    (twoSite c (mkNode c (some p) K 1) p (mkNode p pp (A ++ c :: B) 1)).map (·.binds) =
+      some [(Leg.phys c 0, Leg.gin 0), (Leg.phys p 0, Leg.gin 1)] := by
+  rw [twoSite_parentFirst 1 1 h, twoSite_childFirst 1 1 h]
+  exact ⟨rfl, rfl⟩
+
+/-- Identifiers and parent/child relations of the pair are unchanged by a two-site gate: same parents,
+    the children lists are permutations of the old ones (the parent's list gets the pair's child in
+    front). -/
+theorem two_site_structure (p c : Nat) (pp : Option Nat) (A B K : List Nat) (oP oC : Nat)
+    (h : PairOK p c pp A B K) :
+    (∃ r, twoSite p (mkNode p pp (A ++ c :: B) oP) c (mkNode c (some p) K oC) = some r ∧
+      r.node1.parent = pp ∧ r.node1.children.Perm (A ++ c :: B) ∧
+      r.node2.parent = some p ∧ r.node2.children = K) ∧
+    (∃ r, twoSite c (mkNode c (some p) K oC) p (mkNode p pp (A ++ c :: B) oP) = some r ∧
+      r.node1.parent = some p ∧ r.node1.children = K ∧
+      r.node2.parent = pp ∧ r.node2.children.Perm (A ++ c :: B)) := by
+  have hperm : (c :: (A ++ B)).Perm (A ++ c :: B) := List.perm_middle.symm
+  exact ⟨⟨_, twoSite_parentFirst oP oC h, rfl, hperm, rfl, rfl⟩,
+         ⟨_, twoSite_childFirst oP oC h, rfl, rfl, rfl, hperm⟩⟩
+
+/-- **Single-site gate**: `absorb_into_open_legs` binds input leg `k` to physical leg `k` and leaves the
+    outputs in their places; nothing else changes. -/
+theorem single_site_gate_legs (id : Nat) (par : Option Nat) (ch : List Nat) (o : Nat) :
+    singleSite (mkNode id par ch o) =
+      some (⟨par, ch, parentLegs par ++ (ch.map Leg.nb ++ goutL 0 o)⟩,
+            (physL id o).zip ((List.range o).map Leg.gin)) :=
+  singleSite_mkNode id par ch o
+
+/-! ### non-vacuity -/
+
+example : PairOK 1 2 (some 0) [5] [6] [7] := by unfold PairOK; decide
+example : PairOK 1 2 none [] [] [] := by unfold PairOK; decide
+
+-- child named first, parent has a parent and two more children, child has a child
+example : (twoSite 2 (mkNode 2 (some 1) [7] 1) 1 (mkNode 1 (some 0) [5, 2, 6] 1)).map
+    (fun r => (r.binds, r.node1, r.node2)) =
+    some ([(Leg.phys 2 0, Leg.gin 0), (Leg.phys 1 0, Leg.gin 1)],
+          ⟨some 1, [7], [Leg.bond, Leg.nb 7, Leg.gout 0]⟩,
+          ⟨some 0, [2, 5, 6], [Leg.nb 0, Leg.bond, Leg.nb 5, Leg.nb 6, Leg.gout 1]⟩) := by decide
+
+-- nodes that are not adjacent: the model raises, as the library does
+example : twoSite 1 (mkNode 1 none [3] 1) 2 (mkNode 2 (some 4) [] 1) = none := by decide
+
 end Ptn.C08
